@@ -54,8 +54,12 @@ def h09recycle(n, ntags=24):
 def h09tag(n, cap, other, dotu, P, timeout=600):
     return {"harness": "vxH09Tag", "args": [str(n), str(cap), b(other), b(dotu)], "files": F9, "preempt": P, "race": True, "reach": ["done"], "timeout_s": timeout,
             "bounds": f"{n} Tag.Read requests under one tag, user channel capacity {cap}{', one ordinary call concurrently' if other else ''}; replies matching/Rerror (all combinations), eager or after all; TagFree; <= {P} preemptions"}
+def h09burst(n, fsw):
+    return {"harness": "vxH09TagBurst", "args": [str(n)], "files": F9, "preempt": 0, "free_switches": fsw, "race": True, "reach": ["done"],
+            "bounds": f"{n} Tag.Read requests under one tag (the Tag's queue holds 16), all answered at once while the consumer is not reading, then drained; default schedule plus <= {fsw} other choices at blocking points"}
 w("C09", {
  "quick": [
+  h09burst(20, 2),
   h09rpc(2, 4, 3, 3, True, False, False, 1),           #  2814 paths,  3 s (all 9 kind combinations at P=1: 25326 paths, 25 s -> thorough)
   h09rpc(2, 4, 7, 3, False, False, False, 1),          #  2814 paths,  3 s
   h09rpc(2, 4, -1, 3, True, False, False, 0),          #   594 paths,  1 s
@@ -72,6 +76,7 @@ w("C09", {
   h09tag(2, 0, False, True, 0),                        #  1120 paths
  ],
  "thorough": [
+  h09burst(20, 3), h09burst(24, 2),
   h09rpc(2, 4, -1, 3, True, False, False, 1),
   h09rpc(2, 14, -1, 3, False, True, False, 0),
   h09rpc(2, 4, 0, 3, True, False, False, 2, timeout=3000),     #  62364 paths,  61 s
